@@ -260,7 +260,7 @@ func c12RunSequence(c *kit.Ctx, env *c12env, transport string, seq []c12sym, cas
 		return
 	}
 	defer cl.Close()
-	cl.Timeout = 8 * time.Second
+	cl.Timeout = 45 * time.Second
 	st := c12state{phase: "init"}
 	curPath := env.srcPath
 	session := ""
@@ -399,8 +399,9 @@ func c12RunSequence(c *kit.Ctx, env *c12env, transport string, seq []c12sym, cas
 		// the probe
 		if s.method == "TEARDOWN" {
 			// the server closes after answering; the probe may or may not be answered
+			// (a watchdog of 3 s plus kit.Patience: only a connection that stays open that long is "not closed")
 			for {
-				if _, err := cl.Next(3 * time.Second); err != nil {
+				if _, err := cl.Next(3*time.Second + kit.Patience); err != nil {
 					if err != io.EOF && !strings.Contains(err.Error(), "closed") && !strings.Contains(err.Error(), "reset") && !strings.Contains(err.Error(), "EOF") {
 						if kit.ErrTimeout(err) {
 							fail("connection-not-closed-after-teardown")
